@@ -64,6 +64,10 @@ FAULTS = [
     Fault("division-by-zero", "arithmetic-error", E, "\t.word [[5]]/0"),
     Fault("modulo-by-zero", "arithmetic-error", E, "\t.word 1 + [[7]] % 0"),
     Fault("negative-shift", "arithmetic-error", E, "\t.word [[1]] << -1"),
+    # faults in definitions nothing refers to (they are evaluated at the very end of the build)
+    Fault("unused-division-by-zero", "arithmetic-error", E, "ua§ = 1 + [[10]]/uy§", pre=["uy§ = uf§"], post=["uf§ = 0"], where="top"),
+    Fault("unused-undefined", "undefined-symbol", E, "uu§ = 1 + [[nosuch§]]", where="top", phase="link"),
+    Fault("unused-chain-division", "arithmetic-error", E, "uc§ = [[10]]/0", pre=["ub§ = uc§ + 1"], where="top"),
     # chains: the diagnostic is placed at an infix token whose left operand was itself folded from several terms
     Fault("division-chain", "arithmetic-error", E, "\t.word [[6]] * 2 / 0"),
     Fault("division-chain-sub", "arithmetic-error", E, "\t.word [[10]] / 2 / 0"),
@@ -142,6 +146,7 @@ WARNINGS = [
     Fault("two-insns-one-line", "missing-newline", W, "\t[[nop]] nop", warn_flag="missing-newline"),
     Fault("directive-without-dot", "meta-typo", W, "\t[[blkb]] 2", warn_flag="meta-typo"),
     Fault("legacy-deferred", "legacy-deferred", W, "\tclr [[@r0]]", warn_flag="legacy-deferred"),
+    Fault("legacy-deferred-percent", "legacy-deferred", W, "\tmov [[@%1]], r0", warn_flag="legacy-deferred"),
     Fault("implicit-index", "implicit-index", W, "\tclr [[@(r0)]]", warn_flag="implicit-index"),
     Fault("register-as-accumulator", "implicit-accumulator", W, "\tldf [[r1]], ac0", warn_flag="implicit-accumulator"),
 ]
